@@ -33,6 +33,7 @@ type Spec struct {
 	ID          string
 	Level       string // evidence level: exploration | fault_enumeration
 	Rule        string // how cases are generated and what makes one distinct/non-trivial
+	RuleAdd     string // families of cases and oracles added after the first version (appended to Rule in the evidence)
 	Assumptions []string
 	// NewCase returns a pointer to a zero case value (for JSON decoding in replay / child mode).
 	NewCase func() any
@@ -1046,7 +1047,7 @@ func finish(s *Spec, o Options, rec *Rec, cases int, wall time.Duration) int {
 	cov := map[string]any{
 		"evaluations":             rec.evals.Load(),
 		"distinct_nontrivial":     distinct,
-		"rule":                    s.Rule,
+		"rule":                    strings.TrimSpace(s.Rule + " " + s.RuleAdd),
 		"samples":                 samples,
 		"exhaustive":              s.Exhaustive,
 		"cases":                   cases,
